@@ -79,18 +79,22 @@ func cancelScenario(name string, d *shapeDesc, kinds []int, deadline, before, as
 	return cancelScenarioRot(name, d, kinds, deadline, before, asNode, rotationOf(name))
 }
 
+// forcedBudget: the retry budget of every leaf in the scenario being generated (0: alternate 1, 2)
+var forcedBudget int
+
 // cancelScenarioRot: rot fixes which kind the first leaf gets.  Batch-node kinds may be among
 // the leaves: the context is then cancelled only inside callbacks of the OTHER nodes (what a
 // batch does when cancelled from inside is C11's subject), and their item executions always
 // succeed; the rule "no further node of the flow is started" covers them as successors.
 func cancelScenarioRot(name string, d *shapeDesc, kinds []int, deadline, before, asNode bool, rot int) Scenario {
+	budget := forcedBudget
 	var h *H
 	var root *spec
 	var menu func(h *H, c call) []answer
 	var cs *cancelState
 	body := func() {
 		if root == nil {
-			g := &shapeGen{leafKinds: kinds, counter: rot}
+			g := &shapeGen{leafKinds: kinds, counter: rot, forceN: budget}
 			root = g.build(d, "r")
 			base := cancelMenu(collectActions(root), 2)
 			menu = func(h *H, c call) []answer {
@@ -255,6 +259,12 @@ func genC05(tier string) []Scenario {
 			}
 		}
 	}
+	// larger budgets for two kinds (a cancellation inside the 1st … 5th failing attempt of 6)
+	for _, kind := range []int{kBaseFb, kFuncRB} {
+		for _, n := range []int{5, 6} {
+			out = append(out, cancelNodeScenario(kind, n, false, false))
+		}
+	}
 	// single nodes of every kind, budgets 1..3
 	for kind := 0; kind < numKinds; kind++ {
 		for n := 1; n <= 3; n++ {
@@ -272,6 +282,8 @@ func genC05(tier string) []Scenario {
 // cancelNodeScenario: a single node (not in a flow) with exec ok|err at every attempt.
 func cancelNodeScenario(kind, n int, deadline, before bool) Scenario {
 	d := &shapeDesc{base: 0, slot: -1}
+	forcedBudget = n
 	sc := cancelScenario(fmt.Sprintf("node-cancel kind=%s N=%d deadline=%v before=%v", kindNames[kind], n, deadline, before), d, []int{kind}, deadline, before, true)
+	forcedBudget = 0
 	return sc
 }
